@@ -44,4 +44,4 @@ func genTdsConsts(repo string) (*leanFile, error) {
 	return lf, nil
 }
 
-func init() { extraGens = append(extraGens, genTdsConsts) }
+func init() { extraGens = append(extraGens, namedGen{"TdsConsts.lean", genTdsConsts}) }
